@@ -12,6 +12,7 @@ import (
 
 	"github.com/getkin/kin-openapi/openapi3"
 	"github.com/getkin/kin-openapi/zzsimrt"
+	"github.com/oasdiff/yaml"
 
 	"verif/simenv"
 	"verif/simfw"
@@ -154,6 +155,11 @@ func (Sim) Run(raw json.RawMessage, prop string, keep bool) (res simfw.Result) {
 		urlOf[i] = u
 		locOf[i] = simenv.Canon(u)
 		b, _ := json.Marshal(f.Doc)
+		if f.YAML && i > 0 {
+			if y, err := yaml.JSONToYAML(b); err == nil {
+				b = y
+			}
+		}
 		content[i] = b
 		st.Files[locOf[i]] = b
 	}
@@ -190,6 +196,26 @@ func (Sim) Run(raw json.RawMessage, prop string, keep bool) (res simfw.Result) {
 		collectRefs(f.Doc, &refs)
 		refsOf[locOf[i]] = refs
 		baseOf[locOf[i]] = urlOf[i]
+	}
+	// a partial delivery (torn read, response cut short) may still parse: the references of what was
+	// delivered are references the loader legitimately follows
+	for _, f := range st.Faults {
+		if f.Kind != "torn" && f.Kind != "http_short" && f.Kind != "http_reset" {
+			continue
+		}
+		full, ok := st.Files[f.Loc]
+		if !ok {
+			continue
+		}
+		var v any
+		if yaml.Unmarshal(simenv.Partial(full, f), &v) == nil && v != nil {
+			var refs []string
+			collectRefs(v, &refs)
+			refsOf[f.Loc] = append(refsOf[f.Loc], refs...)
+			if len(refs) > 0 {
+				res.Probe("partial-delivery-parses")
+			}
+		}
 	}
 	rootLoc := locOf[0]
 	var rootBase *url.URL
@@ -506,6 +532,37 @@ func (Sim) Run(raw json.RawMessage, prop string, keep bool) (res simfw.Result) {
 		for _, ev := range st.Events[first:] {
 			res.Violate("C11", "in-memory", "C11/"+sig("read-during-in-memory-load"), fmt.Sprintf("a document without any external reference was loaded from memory on a reused Loader, yet the loader read %q via %s", ev.Loc, ev.Via))
 			break
+		}
+	}
+	// ---- another document of the layout loaded as a root of its own on the same Loader, switch off:
+	// nothing but that document's own location may be read, whatever the earlier loads went through
+	if s.ThenOther && !s.External && len(s.Files) > 1 {
+		k := 1
+		for i := 1; i < len(s.Files); i++ {
+			if s.Files[i].Kind == "whole" {
+				k = i
+				break
+			}
+		}
+		first := len(st.Events)
+		log.Add("sim", "load", "another document on the same loader: "+locOf[k], "")
+		func() {
+			defer func() {
+				if p := recover(); p != nil {
+					res.Probe("loader-panic")
+				}
+			}()
+			zzsimrt.ResetMapOrder(s.MapSeed)
+			defer zzsimrt.ResetMapOrder(0)
+			_, err := loader.LoadFromDataWithPath(content[k], urlOf[k])
+			log.Add("sim", "loaded", "", fmt.Sprintf("err=%v", err != nil))
+		}()
+		res.Probe("then-other-document-switch-off")
+		for _, ev := range st.Events[first:] {
+			if ev.Loc != locOf[k] {
+				res.Violate("C11", "switch-off", "C11/"+sig("read-beyond-root/later-document"), fmt.Sprintf("external references are disallowed, yet while loading %q (handed over with its location) on a Loader used before, the loader read %q via %s", locOf[k], ev.Loc, ev.Via))
+				break
+			}
 		}
 	}
 	for k, v := range st.Fired {
